@@ -2,27 +2,22 @@
   C01 — permutation congruence of the state primitives (part of the congruence that the header of
   `Properties/C01.lean` lists as not formalised).
 
-  `PermEnt s s'`: the two states hold the same entities, the same applied instructions and the same
-  indexes, but their four entity maps and the instruction record hand out their values in a
-  different order (a different hash seed). Under unique ids (`UniqueIds`, part of `WF`):
+  `PermEnt s s'`: the two states hold the same entities and the same applied instructions, their
+  indexes register the same ids under the same cells (`IdxEqv`, Properties/C01Index), but every map and
+  set hands out its values in a different order (a different hash seed). Under unique ids (`UniqueIds`, part of `WF`):
 
   * every lookup by id gives the same record (`PermEnt.vehicle?` …);
-  * every primitive state operation of `simulation_state_ops` used by the control model -
-    `modify_vehicle`, `modify_station`, `modify_base`, `modify_request`, `remove_request` - has the
-    same outcome kind on both states and, when it succeeds, leads to states that are again related
-    (`modifyVehicle_perm` …, relation `OutRel`);
+  * (in `C01Walk.lean`) every primitive state operation of `simulation_state_ops` used by the
+    control model has the same outcome kind on both states and leads to related states;
   * pass 1 of `apply_instructions` computes the same plans (`planAll_perm`), and the vehicle update
     phase steps the same sequence of (vehicle, snapshot activity) pairs (`updateOrder_permEnt`).
 
-  Still partial: the composite functions (`enter`/`exit`/`transition`/`_perform_update`) are
-  compositions of these primitives and lookups, but their congruence is not walked through here, and
-  the *indexes* are taken equal rather than equal up to the order inside their cells (their own
-  order-independence is what C08's `Index.ok` + lookup theorems give: membership only). The
-  hash-seed runs decide the rest.
+  The composite functions are walked through in `C01Walk.lean` and `C01Cycle.lean`.
 -/
 import Properties.C01
 import Proofs.SimOps
 import Hive.Lookup
+import Properties.C01Index
 
 namespace Hive
 namespace C01
@@ -65,10 +60,10 @@ structure PermEnt (s s' : Sim) : Prop where
   bases : s.bases.Perm s'.bases
   requests : s.requests.Perm s'.requests
   applied : s.applied.Perm s'.applied
-  vIdx : s.vIdx = s'.vIdx
-  rIdx : s.rIdx = s'.rIdx
-  sIdx : s.sIdx = s'.sIdx
-  bIdx : s.bIdx = s'.bIdx
+  vIdx : IdxEqv s.vIdx s'.vIdx
+  rIdx : IdxEqv s.rIdx s'.rIdx
+  sIdx : IdxEqv s.sIdx s'.sIdx
+  bIdx : IdxEqv s.bIdx s'.bIdx
 
 /-- unique ids in every entity map (what the loaders produce and every step keeps: `WF`) -/
 structure UniqueIds (s : Sim) : Prop where
@@ -85,89 +80,6 @@ theorem PermEnt.base? {s s' : Sim} (h : PermEnt s s') (hu : UniqueIds s) (i : Ba
     s.base? i = s'.base? i := lookup_perm Base.id h.bases hu.bases i
 theorem PermEnt.request? {s s' : Sim} (h : PermEnt s s') (hu : UniqueIds s) (i : RequestId) :
     s.request? i = s'.request? i := lookup_perm Request.id h.requests hu.requests i
-
-/-- outcomes related by `PermEnt` -/
-def OutRel : Outcome Sim → Outcome Sim → Prop
-  | .ok a, .ok b => PermEnt a b
-  | .rejected, .rejected => True
-  | .error, .error => True
-  | _, _ => False
-
-/-- **`modify_station` does not depend on the hand-out order** -/
-theorem modifyStation_perm (env : Env) {s s' : Sim} (h : PermEnt s s') (hu : UniqueIds s) (st : Station) :
-    OutRel (s.modifyStation env st) (s'.modifyStation env st) := by
-  unfold Sim.modifyStation
-  rw [← h.station? hu st.id]
-  cases s.station? st.id with
-  | none => trivial
-  | some old =>
-    simp only
-    split
-    · trivial
-    · split
-      · trivial
-      · exact { h with stations := replaceById_perm Station.id h.stations st }
-
-/-- **`modify_base` does not depend on the hand-out order** -/
-theorem modifyBase_perm (env : Env) {s s' : Sim} (h : PermEnt s s') (hu : UniqueIds s) (b : Base) :
-    OutRel (s.modifyBase env b) (s'.modifyBase env b) := by
-  unfold Sim.modifyBase
-  rw [← h.base? hu b.id]
-  cases s.base? b.id with
-  | none => trivial
-  | some old =>
-    simp only
-    split
-    · trivial
-    · split
-      · trivial
-      · exact { h with bases := replaceById_perm Base.id h.bases b }
-
-/-- **`modify_vehicle` does not depend on the hand-out order** (the index is moved by id and cell,
-    both read from the record found by id) -/
-theorem modifyVehicle_perm (env : Env) {s s' : Sim} (h : PermEnt s s') (hu : UniqueIds s) (v : Vehicle) :
-    OutRel (s.modifyVehicle env v) (s'.modifyVehicle env v) := by
-  unfold Sim.modifyVehicle
-  rw [← h.vehicle? hu v.id, ← h.vIdx]
-  cases s.vehicle? v.id with
-  | none => trivial
-  | some old =>
-    simp only
-    split
-    · trivial
-    · cases Index.move env.parent s.vIdx old.pos.cell v.pos.cell v.id with
-      | none => trivial
-      | some ix => exact { h with vehicles := replaceById_perm Vehicle.id h.vehicles v, vIdx := rfl }
-
-/-- **`modify_request`** likewise -/
-theorem modifyRequest_perm (env : Env) {s s' : Sim} (h : PermEnt s s') (hu : UniqueIds s) (r : Request) :
-    OutRel (s.modifyRequest env r) (s'.modifyRequest env r) := by
-  unfold Sim.modifyRequest
-  rw [← h.request? hu r.id, ← h.rIdx]
-  cases s.request? r.id with
-  | none => trivial
-  | some old =>
-    simp only
-    split
-    · trivial
-    · split
-      · trivial
-      · cases Index.move env.parent s.rIdx old.pos.cell r.pos.cell r.id with
-        | none => trivial
-        | some ix => exact { h with requests := replaceById_perm Request.id h.requests r, rIdx := rfl }
-
-/-- **`remove_request`** likewise -/
-theorem removeRequest_perm (env : Env) {s s' : Sim} (h : PermEnt s s') (hu : UniqueIds s) (i : RequestId) :
-    OutRel (s.removeRequest env i) (s'.removeRequest env i) := by
-  unfold Sim.removeRequest
-  rw [← h.request? hu i, ← h.rIdx]
-  cases s.request? i with
-  | none => trivial
-  | some old =>
-    simp only
-    cases Index.remove env.parent s.rIdx old.pos.cell i with
-    | none => trivial
-    | some ix => exact { h with requests := removeById_perm Request.id h.requests i, rIdx := rfl }
 
 /-- **the plans of an instruction phase (pass 1 of `apply_instructions`) do not depend on the hand-out
     order**: every plan is computed from records found by id -/
@@ -195,7 +107,7 @@ theorem PermEnt.uniqueIds {s s' : Sim} (h : PermEnt s s') (hu : UniqueIds s) : U
    (h.bases.map _).nodup_iff.mp hu.bases, (h.requests.map _).nodup_iff.mp hu.requests⟩
 
 theorem PermEnt.refl (s : Sim) : PermEnt s s :=
-  ⟨rfl, rfl, .refl _, .refl _, .refl _, .refl _, .refl _, rfl, rfl, rfl, rfl⟩
+  ⟨rfl, rfl, .refl _, .refl _, .refl _, .refl _, .refl _, .refl _, .refl _, .refl _, .refl _⟩
 
 /-- **not vacuous**: two hand-out orders of a two-station, two-vehicle state; the same station
     update succeeds on both and leads to related states -/
@@ -205,16 +117,11 @@ example :
     let s : Sim := { (default : Sim) with stations := [st 1, st 2], vehicles := [v 1, v 2] }
     let s' : Sim := { (default : Sim) with stations := [st 2, st 1], vehicles := [v 2, v 1] }
     PermEnt s s' ∧ UniqueIds s := by
-  refine ⟨⟨rfl, rfl, ?_, ?_, .refl _, .refl _, .refl _, rfl, rfl, rfl, rfl⟩, ⟨?_, ?_, ?_, ?_⟩⟩
+  refine ⟨⟨rfl, rfl, ?_, ?_, .refl _, .refl _, .refl _, .refl _, .refl _, .refl _, .refl _⟩, ⟨?_, ?_, ?_, ?_⟩⟩
   · exact List.Perm.swap _ _ _
   · exact List.Perm.swap _ _ _
   all_goals decide
 
-
-/-- two coarse indexes that register the same ids under the same search cells - whatever the order
-    of the cells in the map and of the ids inside a cell's `frozenset` -/
-def SameSets (a b : CollDict) : Prop :=
-  ∀ c, a.has c = b.has c ∧ ∀ i, (a.get c).contains i = (b.get c).contains i
 
 theorem entitiesAtCell_sameSets {a b : CollDict} (h : SameSets a b) (ents : List (Nat × Cell)) (sc : Cell) :
     Lookup.entitiesAtCell a ents sc = Lookup.entitiesAtCell b ents sc := by
